@@ -23,7 +23,7 @@
 (***************************************************************************)
 EXTENDS RenderArgs, TLC, Json
 
-CONSTANTS TreeSel, Part, NParts, MaxOps, MaxHeap, MaxNss, DumpEdges
+CONSTANTS TreeSel, Part, NParts, Sub, NSub, MaxOps, MaxHeap, MaxNss, DumpEdges
 
 (* ---- class trees -------------------------------------------------------- *)
 Depth(par, c) == Cardinality(Anc([par |-> par, has |-> {}], c)) - 1
@@ -104,9 +104,15 @@ ResultId(op, e) ==
     [] OTHER -> R(Fresh, FALSE)
 
 (* ---- the single state transformer ---------------------------------------- *)
+\* sub-partition of one tree's histories by their FIRST operation (big trees, 4 operations)
+FirstCode(op) ==
+  op.cls + 5 * Len(op.kw) + (IF Len(op.kw) >= 1 THEN op.kw[1][1] + 2 * op.kw[1][2] ELSE 0)
+         + (IF Len(op.kw) >= 2 THEN 3 * op.kw[2][2] ELSE 0)
+
 Do(op, accepted) ==
   LET e == Expected(T, obj, op) IN
   /\ steps < MaxOps
+  /\ (steps = 0 => FirstCode(op) % NSub = Sub)
   /\ Len(obj) < MaxHeap
   /\ (e.rej = {}) = accepted
   /\ steps' = steps + 1
